@@ -604,11 +604,15 @@ fn get_zone_offset(zone_name: &str, date: (i32, u32, u32), time: (u32, u32, u32,
     // try parse the time zone specified as text
     if let Ok(tz) = zone_name.parse::<chrono_tz::Tz>() {
       // build date and time in parsed time zone
-      let zdt = tz.ymd(date.0, date.1, date.2).and_hms_nano(time.0, time.1, time.2, time.3);
-      // calculate the time offset, the result is a chrono::Duration
-      let offset: chrono::Duration = utc.with_timezone(&tz) - zdt;
-      // return seconds
-      return Some(offset.num_seconds() as i32);
+      // (there is no such date and time when the local time falls into a gap or is ambiguous)
+      if let LocalResult::Single(zd) = tz.ymd_opt(date.0, date.1, date.2) {
+        if let Some(zdt) = zd.and_hms_nano_opt(time.0, time.1, time.2, time.3) {
+          // calculate the time offset, the result is a chrono::Duration
+          let offset: chrono::Duration = utc.with_timezone(&tz) - zdt;
+          // return seconds
+          return Some(offset.num_seconds() as i32);
+        }
+      }
     }
   }
   None
